@@ -25,6 +25,16 @@ BUILT = {
             'library material objects for indices; root choice among two valid sheet intersections follows the '
             'documented nearest-vertex-plane convention.',
             'DESIGN.md §4 C02'),
+    'C01': ('history monitor: shadow prescription advanced op by op and compared with the live lens after every operation; icontract postconditions on add_surface / add_wavelength',
+            'Exploration: 300 (quick) / 24k (thorough) generated edit histories of 5-60 operations on lenses of every '
+            'surface type; after every operation the live lens is snapshotted through its getters and compared field '
+            'by field with an independent shadow prescription (frame condition + read-back), pickups/solves are '
+            'checked after update(), stop/primary clauses by contracts on every call. Held = no operation of any '
+            'explored history left the lens different from the shadow.',
+            'Trusts the shadow model in props/c01.py; scaled Variable updates adopt the one raw quantity they name '
+            'from the live lens (the scaling map is a private convention); solves are generated where a one-pass '
+            'solve is exact, the remaining class is a listed finding.',
+            'DESIGN.md §4 C01'),
 }
 
 NOT_YET = {}
